@@ -190,7 +190,7 @@ claim('C10', 'proof',
       'rest (induction, no side conditions: positivity and invertibility of P are derived from the LMI), asymptotic '
       'stability (its 2x2 sub-block is the spectral-radius block with rho = 1, reusing C09), and the H-infinity norm ITSELF: '
       'C10_hinf_norm - zI - A is invertible on the unit circle and |G(z)u| <= gamma |u| for every |z| = 1 and every complex u '
-      '(dissipation applied to real and imaginary parts; no Parseval). Correspondence: problem A '
+      '(dissipation applied to real and imaginary parts; no Parseval). Correspondence: G(z)u at rational points of the unit circle (exact, certified in the driver) vs frequency_response; problem A '
       'and _create_ss (no weight / pre / post) via PICOS evaluation vs the Lean blocks over Q; scripted-solver loop. '
       'Oracle: independently computed H-infinity norm (frequency sweep + refinement) vs gamma_ on cvxopt fits.',
       'Partial on: scipy zpk->ss and '
